@@ -496,13 +496,15 @@ func MakeSam(r *fw.Rng, ref string, pr SamProfile) SamFile {
 					name = fmt.Sprintf("unmapped_%d", sf.Unmapped)
 				}
 				seq := Genome(r, r.Range(1, 20))
+				// the unmapped bit together with other bits that do not change its meaning
+				uflag := 4 | []int{0, 0, 0x200, 0x400, 0x1 | 0x8 | 0x40, 0x10}[r.Intn(6)]
 				if r.Chance(0.5) {
-					sb.WriteString(fmt.Sprintf("%s\t4\t*\t0\t0\t*\t*\t0\t0\t%s\t*\n", name, seq))
+					sb.WriteString(fmt.Sprintf("%s\t%d\t*\t0\t0\t*\t*\t0\t0\t%s\t*\n", name, uflag, seq))
 				} else {
 					// unmapped flag but with placement fields filled in
 					p := r.Intn(L)
 					n := min(len(seq), L-p)
-					sb.WriteString(fmt.Sprintf("%s\t4\t%s\t%d\t0\t%dM\t*\t0\t0\t%s\t*\n", name, sf.RefName, p+1, n, seq[:n]))
+					sb.WriteString(fmt.Sprintf("%s\t%d\t%s\t%d\t0\t%dM\t*\t0\t0\t%s\t*\n", name, uflag, sf.RefName, p+1, n, seq[:n]))
 				}
 				sf.Unmapped++
 			} else {
@@ -513,7 +515,9 @@ func MakeSam(r *fw.Rng, ref string, pr SamProfile) SamFile {
 				}
 				p := r.Intn(L)
 				n := r.Range(1, min(25, L-p))
-				sb.WriteString(fmt.Sprintf("%s\t256\t%s\t%d\t0\t%dM\t*\t0\t0\t%s\t*\n", name, sf.RefName, p+1, n, Genome(r, n)))
+				// secondary, possibly also reverse / QC-fail / duplicate / supplementary: still secondary
+				sflag := 256 | []int{0, 0, 0x10, 0x200, 0x400, 0x800, 0x10 | 0x200, 0x400 | 0x800}[r.Intn(8)]
+				sb.WriteString(fmt.Sprintf("%s\t%d\t%s\t%d\t0\t%dM\t*\t0\t0\t%s\t*\n", name, sflag, sf.RefName, p+1, n, Genome(r, n)))
 				sf.Secondary++
 			}
 		}
